@@ -407,6 +407,7 @@ type Elem struct {
 	Name string
 	Idx  int
 	Key  int64
+	KT   string // dynamic type of the key
 }
 
 type W struct {
@@ -420,5 +421,7 @@ func (w *W) Unwrap() error { return w.Inner }
 func Wrap(err error, path ...Elem) error { return &W{Inner: err, Path: path} }
 func Field(name string) Elem             { return Elem{Kind: 0, Name: name} }
 func Index(i int) Elem                   { return Elem{Kind: 1, Idx: i} }
-func Key(k interface{}) Elem             { return Elem{Kind: 2, Key: sup.Tok(reflect.ValueOf(k))} }
+func Key(k interface{}) Elem {
+	return Elem{Kind: 2, Key: sup.Tok(reflect.ValueOf(k)), KT: fmt.Sprint(reflect.TypeOf(k))}
+}
 `
